@@ -67,7 +67,9 @@ func (e *Engine) Extra() map[string]any {
 var strPieces = []string{"", "a", "x y", "\r\n\r\n", "Content-Length: 5\r\n\r\n{}", "\"", "\\", "é", "世界", "😀", "\u0000", "<&>", "\n", "\r", " ", "/path/to/file.wa", "0",
 	"\u2028", "\u2029", "\u007f", "\u0080", "\U0010FFFF", "\uFFFD", "\t", "\b\f", "</script>", "\\u0041", "{\"a\":1}", "Content-Length: 0\r\n\r\n",
 	// every printable ASCII punctuation character, and the ones that are special to formatters and templates
-	"!\"#$%&'()*+,-./:;<=>?@[\\]^_`{|}~", "%", "%%", "100% done", "%d %s %v", "${x}", "{{.}}", "\x1b[0m"}
+	"!\"#$%&'()*+,-./:;<=>?@[\\]^_`{|}~", "%", "%%", "100% done", "%d %s %v", "${x}", "{{.}}", "\x1b[0m",
+	// text that looks like JSON escapes (a literal backslash followed by an escape body), as in forwarded JSON output
+	"\\u003c", "\\u003e", "\\u0026", "\\u2028", "\\n", "\\\"", "\\\\", "{\"html\":\"\\u003cb\\u003e\"}"}
 
 func genString(t *tape.Tape) string {
 	n := t.Pick(3, 4, 2, 1)
